@@ -14,7 +14,7 @@ META = {
     "rule": (
         "exhaustive: every permutation up to the tier's bound with ALL argument values (insert index 0..n+1 and "
         "value 0..n, every removal index/value, every shift amount in [-9, 9]), every ordered pair of permutations "
-        "of length <= 4 for composition and sums; generated: permutations up to length 10, triples for "
+        "of length <= 4 for composition and sums; generated: permutations up to length 13, triples for "
         "associativity, component lists for inflate including None and empty components. Oracle: point "
         "configurations + standardisation, definitional interval / run scanners, duality children <-> coveredby. "
         "Every result is first checked to be a bijection of the documented length. Non-trivial: length >= 3 "
@@ -191,7 +191,8 @@ def check_perm(case):
         return BAD("inverse_law", {})
     if P.is_involution() != (tuple(inv) == p) or P.is_increasing() != (p == tuple(range(n))) or P.is_decreasing() != (p == tuple(range(n - 1, -1, -1))) or P.is_identity() != P.is_increasing():
         return BAD("simple_predicates", {})
-    if P.apply(range(n)) != p or P.permute("abcdefghij"[:n]) != tuple("abcdefghij"[v] for v in p):
+    letters = "abcdefghijklmnopqrstuvwxyz"[:n]
+    if P.apply(range(n)) != p or (n <= 26 and P.permute(letters) != tuple(letters[v] for v in p)):
         return BAD("apply", {})
     if any(P(i) != p[i] for i in range(n)):
         return BAD("call", {})
@@ -311,7 +312,7 @@ def inflate_cases(draw):
 
 
 def shard_generated(acc, shard, nshards, n_perm, n_tuple, n_inf):
-    engine.hyp_run(acc, "perm", check_perm, gen.perms(7, 10).map(list), n_perm, shard)
+    engine.hyp_run(acc, "perm", check_perm, gen.perms(7, 13).map(list), n_perm, shard)
     engine.hyp_run(acc, "tuple", check_tuple, tuple_cases(), n_tuple, shard)
     engine.hyp_run(acc, "inflate", check_inflate, inflate_cases(), n_inf, shard)
 
